@@ -225,9 +225,10 @@ TReturn == /\ Ev("Return") /\ IsCaller /\ Line.req = cur[Line.p] /\ Line.req = c
 \* (counted by the client AND seen open by the peer), no live waiter, nothing counted outside the idle list
 TQuiescent == /\ Ev("Quiescent")
               /\ \A g \in Callers : pc[g].at = "idle"
-              /\ Quiescent => /\ QuiescentOK
-                              /\ Line.total = connsCount /\ Line.idle = Len(idle) /\ Line.total = Line.idle
-                              /\ Line.open = Len(idle) /\ Line.nq = Len(waitq)
+              /\ Quiescent                 \* the driver waited (<= 1.5 s) for background dialers and closers to finish
+              /\ QuiescentOK
+              /\ Line.total = connsCount /\ Line.idle = Len(idle) /\ Line.total = Line.idle
+              /\ Line.open = Len(idle) /\ Line.nq = Len(waitq)
               /\ UNCHANGED <<vars, callp, lastDel>> /\ Consume
 
 \* the pending-request gauge
